@@ -185,6 +185,7 @@ class VM:
             k = p[0]
             if k == 'f':
                 if isinstance(v, (Struct, Enum, Closure)): v = v.f[p[1]]
+                elif isinstance(v, Opaque): v = Opaque('%s.%d' % (v.tag, p[1]))      # a component of an unknown value is unknown
                 else: raise VMError('field %r of %r' % (p, v))
             elif k == 'i':
                 if isinstance(v, Seq): v = v.items[p[1]]
@@ -209,6 +210,7 @@ class VM:
             p = path[0]
             if p[0] == 'f':
                 if v is None: raise VMError('field write into uninitialised aggregate')
+                if isinstance(v, Opaque): return v                                      # writing into an unknown value leaves it unknown
                 return v.set(p[1], upd(v.f[p[1]], path[1:]))
             if p[0] == 'i':
                 items = list(v.items); items[p[1]] = upd(items[p[1]], path[1:]); return Seq(items)
